@@ -16,16 +16,10 @@ def _replay_chunk(args):
         rec = R.record("menu", text, "en", mode)
         obs = dict(errs=rec["errs"], ndeliv=len(rec["toks"]), nid=rec["nid_after"],
                    ast=[rec["ast"]] if rec["ok"] else [], pickles=rec["pickles"])
-        bad = None
-        if rec["exc"]:
-            bad = ("exception", rec["exc"])
-        else:
-            for f in FIELDS:
-                if obs[f] != b[f]:
-                    bad = (f, None)
-                    break
-        if bad:
-            out.append(dict(text=text, input=b["input"], field=bad[0], exc=bad[1], spec={f: b[f] for f in FIELDS}, impl=obs))
+        diff = [f for f in FIELDS if obs[f] != b[f]]
+        if rec["exc"] or diff:
+            out.append(dict(text=text, input=b["input"], field="exception" if rec["exc"] else diff[0], fields=(["exception"] if rec["exc"] else []) + diff,
+                            exc=rec["exc"] or None, spec={f: b[f] for f in FIELDS}, impl=obs))
     return len(behs), out
 
 
